@@ -161,6 +161,21 @@ def scn(params):
                 if by and rng.random() < 0.3:
                     c2c(tt + rng.choice([0, 2000, 30000]), 0, 1)
                 tt += rng.choice([0, 0, 5000, 100000, 400000, 1000000, 2500000])
+            if by:
+                # deliberately coinciding: a multi-fragment download of the judged session is in flight when the bystander's packet
+                # for it is forwarded inside the server (and the other way round: the judged session sends to the bystander while
+                # it is downloading itself)
+                for _c in range(3):
+                    tt += 2 * US
+                    fr = tunnelscn.pick_frame(t, rng, "srv", (params["idx"] << 20) | ident[0], 0, sizes=[min(1100, max(200, 5 * frag0)), min(1100, max(300, 9 * frag0))])
+                    fr = proto.make_frame(".".join(str(x) for x in fr[16:20]), ".".join(str(x) for x in fr[20:24]), (params["idx"] << 20) | ident[0], len(fr), "random", rng)
+                    st["offer_time"][(params["idx"] << 20) | ident[0]] = tt
+                    k.at(tt, k.offer_tun, "srv", fr, ident[0])
+                    ident[0] += 1
+                    c2c(tt + rng.choice([2000, 20000, 60000, 150000]), 1, 0)
+                    if rng.random() < 0.5:
+                        c2c(tt + rng.choice([2000, 20000, 60000]), 0, 1)
+                tt += 3 * US
             st["bystander_frames"] = nby[0]
             if not (cfg["raw"] and t.neg and t.neg[0]["conn"] == 0):
                 # packets whose compressed size makes them need exactly 16 (15, 2) fragments at the negotiated sizes - the most
@@ -358,8 +373,29 @@ def scn(params):
                 out["stats"]["clean_%s_accepted" % d] = nr
                 out["stats"]["clean_%s_delivered" % d] = nw
                 if prob and qfull and d == "down" and prob[0] == "lost":
-                    out["stats"]["bystander_losses_not_judged"] = 1
-                    prob = None
+                    # Which of the lost packets did the server read from its tun while the judged session's queue was full (4
+                    # packets waiting behind the one in flight)?  Those it may drop - documented behaviour.  A packet that was
+                    # read while there was room and still never arrived is a loss like any other.
+                    uid0 = getattr(t.clients[0], "cstate", None)
+                    uid0 = uid0[13] if uid0 and len(uid0) > 13 else 0
+                    lost = set(bytes(f) for f in LAST_MISSING)
+                    full_before = False
+                    unexplained = []
+                    for ev in k.log:
+                        if ev[2] != "srv":
+                            continue
+                        if ev[1] == "wait" and "rows" in ev[3] and uid0 < len(ev[3]["rows"]):
+                            r0 = ev[3]["rows"][uid0]
+                            full_before = r0.get("outpacketq_filled", 0) >= 4 and r0.get("out_len", 0) > 0
+                        elif ev[1] == "tun_read" and bytes(ev[3]["data"]) in lost and not full_before:
+                            unexplained.append(proto.frame_ident(ev[3]["data"]))
+                    if not unexplained:
+                        out["stats"]["bystander_losses_not_judged"] = 1
+                        prob = None
+                    else:
+                        out["stats"]["bystander_losses_judged"] = 1
+                        prob = ("lost", "frame id %d (and %d more) was read from the server's tun while the session's queue had room, and never delivered"
+                                % (unexplained[0] & 0xFFFFF, len(unexplained) - 1))
                 if prob:
                     key = "C02:clean-path:%s:%s" % (d, prob[0])
                     why = ""
